@@ -106,6 +106,14 @@ func main() {
 		os.Exit(2)
 	}
 	rep := core.NewReport(*prop, *tier, seed, prog, *verif)
+	if len(prog.InlineNotes) > 0 {
+		rep.Extra["normalising_inliner"] = prog.InlineNotes
+		if os.Getenv("VERIF_DEBUG_INLINE") != "" {
+			for _, n := range prog.InlineNotes {
+				fmt.Println("INLINE", n)
+			}
+		}
+	}
 	if *mutant != "" {
 		rep.Quiet = true
 		fn(rep)
